@@ -153,16 +153,12 @@ Proof.
   apply existsb_exists. exists s. split; [assumption | apply String.eqb_refl].
 Qed.
 (* non-vacuity: at least one type satisfies each hypothesis "not in the deficient list" *)
-Example nonvac_el2 : In el_HEXA8 all_elems /\ ~ In "HEXA8" deficient_el2.
-Proof.
-  split; [unfold all_elems; repeat (first [left; reflexivity | right])|].
-  apply not_in_by_eqb. vm_compute. reflexivity.
-Qed.
-Example nonvac_mass : In el_QUAD4 all_elems /\ ~ In "QUAD4" deficient_mass.
-Proof.
-  split; [unfold all_elems; repeat (first [left; reflexivity | right])|].
-  apply not_in_by_eqb. vm_compute. reflexivity.
-Qed.
+Example nonvac_el2 : existsb (fun e => applicable Elastic e && negb (existsb (String.eqb (ename e)) deficient_el2)) all_elems = true.
+Proof. vm_compute. reflexivity. Qed.
+Example nonvac_th2 : existsb (fun e => negb (existsb (String.eqb (ename e)) deficient_th2)) all_elems = true.
+Proof. vm_compute. reflexivity. Qed.
+Example nonvac_mass : existsb (fun e => negb (existsb (String.eqb (ename e)) deficient_mass)) all_elems = true.
+Proof. vm_compute. reflexivity. Qed.
 
 Print Assumptions C02_two_element_patch_elastic.
 Print Assumptions C02_two_element_patch_thermal.
